@@ -68,7 +68,7 @@ impl Scenario for C06 {
     fn meta(&self) -> Meta {
         Meta {
             level: "exploration",
-            rule: "run = honest history of 2..8/15 blocks (2-5 zero- and non-zero-fee payments each); the block at a seeded position is edited by one of 10 edits that keep it decodable: swap two transactions, replace a transaction by another valid one with the same fee, add / remove a zero-fee transaction, duplicate the last transaction, insert a slip-less SPV-typed stub (standing for 0 or 1 transactions), change a transaction payload (all without touching the signed header, so the hash is unchanged), re-sign the header with another key, change creator / timestamp / treasury without re-signing. Edited block -> node A, original -> node B, then the rest of the history to both. The receiving nodes are synced from genesis, or joined mid-chain (the parent is the first block they ever saw, so the total supply is not loaded and ledger-dependent checks are off), or fresh (the edited block is block #1 itself). Oracles: (1) a block whose hash equals the original's but whose ordered transaction list differs is never accepted; (2) whenever A and B report the same tip hash their spendable sets are identical; (3) a header edit either changes the hash or the block is rejected. distinct_nontrivial = distinct (edit, block position, depth) where the edit applied and hashes were compared.",
+            rule: "run = honest history of 2..8/15 blocks (2-5 zero- and non-zero-fee payments each); the block at a seeded position is edited by one of 10 edits that keep it decodable: swap two transactions, replace a transaction by another valid one with the same fee, add / remove a zero-fee transaction, duplicate the last transaction, insert a slip-less SPV-typed stub (standing for 0 or 1 transactions), change a transaction payload (all without touching the signed header, so the hash is unchanged), re-sign the header with another key, change creator / timestamp / treasury without re-signing. Edited block -> node A, original -> node B, then the rest of the history to both. The receiving nodes are synced from genesis, or joined mid-chain (the parent is the first block they ever saw, so the total supply is not loaded and ledger-dependent checks are off), or fresh (the edited block is block #1 itself). Restart stage (synced receivers, hash-preserving edits): the edited block reaches a node as a sibling of its tip, is stored and written to disk unvalidated, the node restarts from its simulated disk (real start-up) and must not end up with the edited transaction list on its longest chain. Oracles: (1) a block whose hash equals the original's but whose ordered transaction list differs is never accepted; (2) whenever A and B report the same tip hash their spendable sets are identical; (3) a header edit either changes the hash or the block is rejected. distinct_nontrivial = distinct (edit, block position, depth) where the edit applied and hashes were compared.",
             real: &["Block::deserialize_from_net/generate/generate_merkle_root/validate", "MerkleTree", "Blockchain::add_block"],
             stubs: &["SimIo", "SimConfig", "vendored ahash"],
             assumptions: &["genesis period >> depth"],
@@ -328,6 +328,52 @@ impl Scenario for C06 {
             }
             if a.tip().1 == b.tip().1 && a.utxo_keys() != b.utxo_keys() {
                 r.violate(format!("C06|same-tip-different-ledger|{}", plan.edit), "same tip hash, different spendable sets".to_string());
+            }
+        }
+        // restart stage: the edited block reaches a node as a sibling of its tip (stored and written to disk
+        // without validation, as any non-longest block is); the node is then restarted and rebuilds its chain
+        // from its own block files, where the edited file sorts before the honest sibling. Blocks read back
+        // from disk must be validated like any other.
+        if r.violations.is_empty() && same_hash && txs_differ && !fresh_genesis && !mid_chain && plan.target >= 2 {
+            let disk = std::sync::Arc::new(std::sync::Mutex::new(crate::simio::DiskState::default()));
+            let key = w.keys[1].clone();
+            let mut rn = Node::with_disk(&w.cfg, &key, disk.clone());
+            let _ = rn.add_block_bytes(&w.recs[0].bytes.clone());
+            for i in &chain[..plan.target - 1] {
+                let _ = rn.add_block_bytes(&w.recs[*i].bytes.clone());
+            }
+            let sib = crate::util::guarded(|| w.honest_child(parent_idx, &mut rng, 1, orig.has_golden_ticket, 2900, "sibling"));
+            if let Ok(Ok(si)) = sib {
+                let os = rn.add_block_bytes(&w.recs[si].bytes.clone()).as_ref().map(outcome_of);
+                let oe = rn.add_block_bytes(&ebytes).as_ref().map(outcome_of);
+                let stored = rn.bc.blocks.contains_key(&orig.hash);
+                if os == Some(AddOutcome::Added { longest: true }) && stored {
+                    trace.str(&format!("{:?}", oe));
+                    drop(rn);
+                    let start = w.recs.iter().map(|b| b.ts).max().unwrap() + 10_000;
+                    let mut sim = crate::l2::Sim::new(mix(plan.seed, 66), start);
+                    let opts = crate::l2::NodeOpts::default();
+                    let node = crate::l2::FullNode::new(0, &key, &w.cfg, disk.clone(), sim.clock.clone(), &opts);
+                    sim.nodes.push(node);
+                    sim.init_node(0, false);
+                    r.fault("restart_with_edited_sibling_on_disk", 1);
+                    if let Some((_, what, p)) = sim.panics.first() {
+                        r.violate(format!("C06|panic|restart|{}|{}", what, p.site()), format!("restart with the edited block on disk panicked: {} ({}:{})", p.msg.chars().take(140).collect::<String>(), p.file, p.line));
+                    } else {
+                        let bc = crate::util::block_on(sim.nodes[0].blockchain_lock.read());
+                        if let Some(b) = bc.get_block(&orig.hash) {
+                            let on_chain = b.in_longest_chain;
+                            let differs = !b.transactions.is_empty() && (tx_digest(b) != tx_digest(&orig) || b.transactions.iter().zip(orig.transactions.iter()).any(|(x, y)| x.data != y.data));
+                            if on_chain && differs {
+                                r.violate(
+                                    format!("C06|accepted-under-same-hash|after-restart|{}", plan.edit),
+                                    format!("after a restart the node's longest chain holds block id {} under hash {} with a transaction list that differs from the signed one (edit '{}', read back from its own disk)", orig.id, crate::util::hex8(&orig.hash), plan.edit),
+                                );
+                            }
+                        }
+                        r.probe("restart_stage_ran");
+                    }
+                }
             }
         }
         let mut d = Digest::new();
